@@ -183,7 +183,7 @@ func checkC04(c *Ctx) {
 	r.Rule("C04.2", "a transport that answers try-again / not-transport leaves the buffer untouched", 3)
 	r.Rule("C04.3", "prefix table, length thresholds, tag offsets and consumed length agree", 14)
 	r.Rule("C04.4", "success replays the remaining buffered bytes ahead of the live connection", 5)
-	r.Rule("C04.5", "a match clears the deadline on the wrapped connection, marks the registration active and relays the wrapped connection", 3)
+	r.Rule("C04.5", "a match clears the deadline on the wrapped connection, marks the registration active and relays the wrapped connection; returned connections support deadlines", 5)
 
 	h := c.fn("C04.1", "cmd/application", "connManager", "handleNewTCPConn")
 	if h != nil {
@@ -406,6 +406,52 @@ func checkC04(c *Ctx) {
 				}
 			}
 		}
+	}
+
+	// ---- C04.5b the connection a transport hands back supports deadline changes (mechanism (e): the handler clears the
+	// classification deadline and the relay arms its deadlines THROUGH the wrapped connection, and gives up if that fails)
+	for _, f := range wrappingImpls(c) {
+		eachInstr(f, func(in ssa.Instruction) {
+			ret, ok := in.(*ssa.Return)
+			if !ok || len(ret.Results) != 3 {
+				return
+			}
+			if cst, isC := ret.Results[1].(*ssa.Const); isC && cst.Value == nil {
+				return
+			}
+			// only success-capable returns: error result nil or unknown
+			v := ret.Results[1]
+			if mi, ok := v.(*ssa.MakeInterface); ok {
+				t := mi.X.Type()
+				okT, how := repoConnSupportsDeadlines(c, t)
+				r.Check(okT, "C04.5", fnName(f)+": returned connection type "+typeShort(t)+" supports SetDeadline", ret.Pos(), fnName(f), how,
+					"the connection type "+typeShort(t)+" returned on success cannot change deadlines ("+how+"): the classification deadline stays armed and the relay aborts at its first SetDeadline")
+				return
+			}
+			// an interface value produced by a dependency call, returned as is
+			if call, ok := v.(*ssa.Extract); ok {
+				v = call.Tuple
+			}
+			if call, ok := v.(*ssa.Call); ok && call.Call.IsInvoke() {
+				if guarded(f, ret, errAtoms(call, false)...) {
+					return // the failure return of that very call: the handler discards the connection
+				}
+				pkg := ""
+				if call.Call.Method.Pkg() != nil {
+					pkg = call.Call.Method.Pkg().Path()
+				}
+				bad, which, err := depConnTypesRejectingDeadlines(c, pkg)
+				switch {
+				case err != nil:
+					r.Unk("C04.5", fnName(f)+": connection returned by "+call.Call.Method.Name(), ret.Pos(), fnName(f), "cannot analyse the dependency that produces the returned connection: "+err.Error())
+				case bad:
+					r.Bad("C04.5", fnName(f)+": returns a dependency connection whose SetDeadline always fails ("+which+")", ret.Pos(), fnName(f),
+						"the connection produced by "+call.Call.Method.Name()+" is returned to the station as is, but its type "+which+" rejects SetDeadline on every path: the handler cannot clear the 5-10 s classification deadline and the relay gives up at its first SetDeadline, so sessions of this transport are cut before any byte is relayed")
+				default:
+					r.OK("C04.5", fnName(f)+": dependency connection types accept SetDeadline", ret.Pos(), "analysed "+pkg)
+				}
+			}
+		})
 	}
 
 	// ---- C04.2 non-consuming failure
@@ -726,4 +772,120 @@ func isLocalEqualTo(f *ssa.Function, name, want string) bool {
 		}
 	})
 	return ok || name == want
+}
+
+// repoConnSupportsDeadlines: t (a repo type returned as net.Conn) has a SetDeadline that is either promoted from an
+// embedded net.Conn or declared and forwarding to a net.Conn-typed field.
+func repoConnSupportsDeadlines(c *Ctx, t types.Type) (bool, string) {
+	ms := c.P.Prog.MethodSets.MethodSet(t)
+	for i := 0; i < ms.Len(); i++ {
+		sel := ms.At(i)
+		if sel.Obj().Name() != "SetDeadline" {
+			continue
+		}
+		if len(sel.Index()) > 1 {
+			return true, "SetDeadline promoted from the embedded connection"
+		}
+		fn := c.P.Prog.MethodValue(sel)
+		if fn == nil || fn.Blocks == nil {
+			return false, "SetDeadline body not available"
+		}
+		forwards := false
+		eachInstr(fn, func(in ssa.Instruction) {
+			if call, ok := in.(*ssa.Call); ok && call.Call.IsInvoke() && call.Call.Method.Name() == "SetDeadline" {
+				forwards = true
+			}
+		})
+		if forwards {
+			return true, "SetDeadline forwards to a wrapped connection"
+		}
+		return false, "declared SetDeadline does not forward to a connection"
+	}
+	return false, "no SetDeadline method"
+}
+
+var depConnMemo = map[string][3]string{}
+
+// depConnTypesRejectingDeadlines loads one dependency package from source and reports whether a net.Conn
+// implementation declared there has a SetDeadline all of whose returns are a non-nil constant error.
+func depConnTypesRejectingDeadlines(c *Ctx, ifacePkg string) (bool, string, error) {
+	// the implementations of obfs4's base.ServerFactory live in the sibling package transports/obfs4
+	pkgPath := ifacePkg
+	if strings.HasSuffix(ifacePkg, "/transports/base") {
+		pkgPath = strings.TrimSuffix(ifacePkg, "/base") + "/obfs4"
+	}
+	if m, ok := depConnMemo[pkgPath]; ok {
+		if m[2] != "" {
+			return false, "", fmt.Errorf("%s", m[2])
+		}
+		return m[0] == "1", m[1], nil
+	}
+	p, err := LoadProgram(c.Dir, []string{pkgPath}, nil, "")
+	if err != nil {
+		depConnMemo[pkgPath] = [3]string{"", "", err.Error()}
+		return false, "", err
+	}
+	sp := p.SSAPkgs[pkgPath]
+	if sp == nil {
+		depConnMemo[pkgPath] = [3]string{"", "", "package not loaded: " + pkgPath}
+		return false, "", fmt.Errorf("package not loaded: %s", pkgPath)
+	}
+	bad, which := false, ""
+	for _, mem := range sp.Members {
+		tm, ok := mem.(*ssa.Type)
+		if !ok {
+			continue
+		}
+		named, ok := tm.Type().(*types.Named)
+		if !ok || types.IsInterface(named) {
+			continue
+		}
+		pt := types.NewPointer(named)
+		ms := p.Prog.MethodSets.MethodSet(pt)
+		hasRead, hasWrite := false, false
+		var sd *ssa.Function
+		for i := 0; i < ms.Len(); i++ {
+			switch ms.At(i).Obj().Name() {
+			case "Read":
+				hasRead = true
+			case "Write":
+				hasWrite = true
+			case "SetDeadline":
+				if len(ms.At(i).Index()) == 1 {
+					sd = p.Prog.MethodValue(ms.At(i))
+				}
+			}
+		}
+		if !hasRead || !hasWrite || sd == nil || sd.Blocks == nil {
+			continue
+		}
+		always := true
+		n := 0
+		eachInstr(sd, func(in ssa.Instruction) {
+			ret, ok := in.(*ssa.Return)
+			if !ok {
+				return
+			}
+			n++
+			v := stripConv(ret.Results[0])
+			if cst, isC := v.(*ssa.Const); isC && cst.Value == nil {
+				always = false
+				return
+			}
+			switch v.(type) {
+			case *ssa.Const, *ssa.Global:
+			case *ssa.UnOp:
+				if _, isG := v.(*ssa.UnOp).X.(*ssa.Global); !isG {
+					always = false
+				}
+			default:
+				always = false
+			}
+		})
+		if always && n > 0 {
+			bad, which = true, pkgPath[strings.LastIndex(pkgPath, "/")+1:]+"."+named.Obj().Name()
+		}
+	}
+	depConnMemo[pkgPath] = [3]string{map[bool]string{true: "1", false: "0"}[bad], which, ""}
+	return bad, which, nil
 }
